@@ -11,6 +11,7 @@ CONSTANTS
   Weak_AbsenceRawKey = FALSE
   Weak_NoParamsHashCompare = FALSE
   Weak_ValsNotHashed = FALSE
+  Weak_BackwardsTargetNotRechecked = FALSE
   Weak_SearchProofFromCachedBlock = FALSE
 INIT Init
 NEXT Next
